@@ -572,6 +572,8 @@ func compare(r *core.Run, p *prepared, res *nodeResult, st *stats) {
 		if e, bad := p.errs[c.name()]; bad {
 			what := "esbuild rejects a module graph that Node loads: " + e
 			key["kind"] = "build-error"
+			key["error"] = reQuoted.ReplaceAllString(e, `"*"`)
+			key["star"] = hasLabel(g, "star")
 			r.Violation(key, what, replay(what, nil))
 			continue
 		}
@@ -708,6 +710,7 @@ func filesBrief(files map[string]string) string {
 	return sb.String()
 }
 
+var reQuoted = regexp.MustCompile(`"[^"]*"`)
 var reSimStates = regexp.MustCompile(`The number of states generated: (\d+)`)
 
 type genCfg struct {
@@ -720,34 +723,56 @@ type genCfg struct {
 	Quota    int  // quick tier: number of cases taken from this config (0 = all)
 }
 
-func generate(r *core.Run, gc genCfg, seen map[string]bool, mu *sync.Mutex) []*graphCase {
+func generate(r *core.Run, gc genCfg, workers int) []*graphCase {
 	var cases []*graphCase
-	o := tlcrun.Options{Module: "ModuleSem", Config: gc.Config, Workers: 8, TimeoutSec: gc.Timeout,
-		OnCase: func(raw []byte) {
-			var g graphCase
-			if err := json.Unmarshal(raw, &g); err != nil {
-				r.Infra("undecodable CASE record: %v", err)
-				return
-			}
-			g.id = core.Hash(map[string]interface{}{"k": g.Kinds, "b": g.Bodies})
-			mu.Lock()
-			defer mu.Unlock()
-			if seen[g.id] {
-				return
-			}
-			seen[g.id] = true
-			g.labels = labelsOf(&g)
-			g.src = gc.Config
-			cases = append(cases, &g)
-		}}
-	if gc.Simulate != "" {
-		o.Simulate = gc.Simulate
-		o.Depth = gc.Depth
-		o.Workers = 1
-		o.Seed = r.Seed
+	var mu sync.Mutex
+	seen := map[string]bool{}
+	mk := func() tlcrun.Options {
+		o := tlcrun.Options{Module: "ModuleSem", Config: gc.Config, Workers: workers, TimeoutSec: gc.Timeout,
+			OnCase: func(raw []byte) {
+				var g graphCase
+				if err := json.Unmarshal(raw, &g); err != nil {
+					r.Infra("undecodable CASE record: %v", err)
+					return
+				}
+				g.id = core.Hash(map[string]interface{}{"k": g.Kinds, "b": g.Bodies})
+				mu.Lock()
+				defer mu.Unlock()
+				if seen[g.id] {
+					return
+				}
+				seen[g.id] = true
+				g.labels = labelsOf(&g)
+				g.src = gc.Config
+				cases = append(cases, &g)
+			}}
+		if gc.Simulate != "" {
+			o.Simulate = gc.Simulate
+			o.Depth = gc.Depth
+			o.Workers = 1
+			o.Seed = r.Seed
+		}
+		return o
 	}
-	res := tlcrun.MustHold(r, o)
-	if res != nil && gc.Simulate != "" {
+	res, err := tlcrun.Run(r, mk())
+	if err != nil && (res == nil || !res.TimedOut) {
+		// the machine is shared: a JVM killed from outside is retried once
+		r.Logf("TLC %s failed (%v); retrying once", gc.Config, firstLine(err.Error()))
+		mu.Lock()
+		cases, seen = nil, map[string]bool{}
+		mu.Unlock()
+		res, err = tlcrun.Run(r, mk())
+	}
+	if err != nil {
+		r.Infra("%v", err)
+		return nil
+	}
+	if res.Violated != "" {
+		// guard 3 of DESIGN.md section 2: a violation on the model alone is a spec error, not a verdict
+		r.Infra("model ModuleSem/%s violates %s on the design alone (spec error, not a verdict):\n%s", gc.Config, res.Violated, tailLines(res.Output, 60))
+		return nil
+	}
+	if gc.Simulate != "" {
 		// simulation mode reports its state count differently
 		if m := reSimStates.FindStringSubmatch(res.Output); m != nil {
 			n, _ := strconv.ParseInt(m[1], 10, 64)
@@ -755,11 +780,25 @@ func generate(r *core.Run, gc genCfg, seen map[string]bool, mu *sync.Mutex) []*g
 			r.AddStates(n, n)
 		}
 	}
-	if res != nil {
-		r.Set("tlc_"+strings.TrimSuffix(strings.TrimPrefix(gc.Config, "ModuleSem."), ".cfg"),
-			map[string]interface{}{"generated": res.Generated, "distinct": res.Distinct, "depth": res.Depth, "cases": len(cases), "wall_s": res.Wall.Seconds()})
-	}
+	r.Logf("TLC ModuleSem/%s: %d generated, %d distinct, depth %d, %d cases, %.1fs", gc.Config, res.Generated, res.Distinct, res.Depth, len(cases), res.Wall.Seconds())
+	r.Set("tlc_"+strings.TrimSuffix(strings.TrimPrefix(gc.Config, "ModuleSem."), ".cfg"),
+		map[string]interface{}{"generated": res.Generated, "distinct": res.Distinct, "depth": res.Depth, "cases": len(cases), "wall_s": res.Wall.Seconds()})
 	return cases
+}
+
+func firstLine(s string) string {
+	if i := strings.IndexByte(s, '\n'); i >= 0 {
+		return s[:i]
+	}
+	return s
+}
+
+func tailLines(s string, n int) string {
+	lines := strings.Split(s, "\n")
+	if len(lines) > n {
+		lines = lines[len(lines)-n:]
+	}
+	return strings.Join(lines, "\n")
 }
 
 func Run(r *core.Run) {
@@ -771,17 +810,13 @@ func Run(r *core.Run) {
 		replayOne(r)
 		return
 	}
-	if os.Getenv("C02_ONLY_DATA") != "" {
-		runDataLoaders(r)
-		r.Set("rule", "data only")
-		return
-	}
 	// generator configs (each is also a design check: the invariants of
 	// ModuleSem are checked on every state).  Quick: two small exhaustive
 	// slices and seeded simulation; thorough: the exhaustive slices in full.
 	gens := []genCfg{
 		{Config: "ModuleSem.qesm.cfg", Timeout: 900, Quota: 500, Quick: true},
 		{Config: "ModuleSem.qmixed.cfg", Timeout: 900, Quota: 500, Quick: true},
+		{Config: "ModuleSem.qstar.cfg", Timeout: 900, Quota: 400, Quick: true},
 		{Config: "ModuleSem.simmixed.cfg", Simulate: fmt.Sprintf("num=%d", r.Pick(300, 3000)), Depth: 300, Timeout: 1500, Quota: 2000},
 		{Config: "ModuleSem.simesm.cfg", Simulate: "num=2500", Depth: 300, Timeout: 1500, Thorough: true, Quota: 1000},
 		{Config: "ModuleSem.esm2.cfg", Timeout: 1500, Thorough: true, Quota: 3000},
@@ -790,14 +825,30 @@ func Run(r *core.Run) {
 		{Config: "ModuleSem.star3.cfg", Timeout: 1500, Thorough: true, Quota: 1500},
 		{Config: "ModuleSem.cjs3.cfg", Timeout: 1500, Thorough: true, Quota: 1500},
 	}
-	seen := map[string]bool{}
-	var mu sync.Mutex
-	var all []*graphCase
+	var active []genCfg
 	for _, gc := range gens {
 		if (gc.Thorough && !r.Thorough()) || (gc.Quick && r.Thorough()) {
 			continue
 		}
-		cases := generate(r, gc, seen, &mu)
+		active = append(active, gc)
+	}
+	// the generators run side by side (<= 8 TLC workers in total)
+	par, workers := 4, 2
+	if r.Thorough() {
+		par, workers = 2, 4
+	}
+	results := make([][]*graphCase, len(active))
+	core.Parallel(len(active), par, func(i int) { results[i] = generate(r, active[i], workers) })
+	seen := map[string]bool{}
+	var all []*graphCase
+	for i, gc := range active {
+		var cases []*graphCase
+		for _, g := range results[i] {
+			if !seen[g.id] {
+				seen[g.id] = true
+				cases = append(cases, g)
+			}
+		}
 		r.Inc("graphs_generated_by_tlc", int64(len(cases)))
 		if gc.Quota > 0 && len(cases) > gc.Quota {
 			// a seeded subset, in a stable order
